@@ -111,7 +111,9 @@ func C20(p *Prog, r *Run) {
 	}
 	iterEnd := func(l *Loop) func(a, b *ssa.BasicBlock) bool {
 		xb := exitBlock(l)
-		return func(a, b *ssa.BasicBlock) bool { return b == l.Header || (b == xb && a != l.Header) || (b == xb && a == l.Header && false) }
+		return func(a, b *ssa.BasicBlock) bool {
+			return b == l.Header || (b == xb && a != l.Header) || (b == xb && a == l.Header && false)
+		}
 	}
 	// exactlyOnce: within one iteration of loop l, event occurs exactly once on every non-error path.
 	exactlyOnce := func(l *Loop, what string, ev func(ssa.Instruction) bool, withObserver bool, label string) {
